@@ -285,8 +285,15 @@ def generate(outpath, repo_src=None, contracts_dir=None, demote=()):
         n = text.count('\n')
         if meta is not None:
             last = state['line'] + n - (1 if text.endswith('\n') else 0)
-            for ln in range(state['line'], last + 1):
-                linemap.setdefault(ln, meta)
+            lines = text.split('\n')
+            for k, ln in enumerate(range(state['line'], last + 1)):
+                md = meta
+                ct = overlay.clause_tags(lines[k]) if k < len(lines) else None
+                if ct:
+                    md = dict(meta)
+                    md['obligation'], md['clause_props'] = ct
+                    md['text'] = lines[k].strip()
+                linemap.setdefault(ln, md)
         pieces.append(text)
         state['line'] += n
 
